@@ -89,13 +89,11 @@ theorem adj_symm (l : Lat) (h : l.WF) (i j : Nat) : l.adj i j = l.adj j i := by
   | layered base nl ih =>
     simp only [Lat.adj]
     rw [ih h (i % base.nsites) (j % base.nsites)]
-    by_cases e : i / base.nsites = j / base.nsites
-    · simp [e, Bool.and_comm]
-    · have e' : ¬ j / base.nsites = i / base.nsites := fun x => e x.symm
-      by_cases e2 : i % base.nsites = j % base.nsites
-      · simp [e, e', e2, Bool.and_comm]
-      · have e2' : ¬ j % base.nsites = i % base.nsites := fun x => e2 x.symm
-        simp [e, e', e2, e2']
+    have c1 : (i / base.nsites == j / base.nsites) = (j / base.nsites == i / base.nsites) :=
+      bool_eq_of_iff (by simp only [beq_iff_eq]; exact eq_comm)
+    have c2 : (i % base.nsites == j % base.nsites) = (j % base.nsites == i % base.nsites) :=
+      bool_eq_of_iff (by simp only [beq_iff_eq]; exact eq_comm)
+    rw [c1, c2, Bool.and_comm (decide (i < nl * base.nsites))]
 
 theorem adj_irrefl (l : Lat) (h : l.WF) (i : Nat) : l.adj i i = false := by
   induction l generalizing i with
@@ -140,5 +138,105 @@ theorem adj_lt (l : Lat) {i j : Nat} (h : l.adj i j = true) : i < l.nsites ∧ j
   case full shape => simp only [Bool.and_eq_true, decide_eq_true_eq] at h; exact h.1
   case custom shape a => simp only [Bool.and_eq_true, decide_eq_true_eq] at h; exact h.1
   case layered base nl => simp only [Bool.and_eq_true, decide_eq_true_eq] at h; exact h.1
+
+
+theorem roundHalfEven_odd (x : Nat) : roundHalfEven (2 * (x : Int) + 1) = x := by
+  unfold roundHalfEven
+  rw [if_pos (by simp)]
+  omega
+
+theorem ofc_roundtrip (n0 n1 : Nat) (pbc : List Bool) (i : Nat) (hi : i < ofcNsites n0 n1) :
+    ∃ c, (Lat.ofc n0 n1 pbc).i2c (i : Int) = .ok c ∧
+      (Lat.ofc n0 n1 pbc).c2i ((Lat.ofc n0 n1 pbc).isFloat c) c = .ok (some (i : Int)) := by
+  by_cases hv : i < n0 * n1
+  · have hs : sprod [n0, n1] = n0 * n1 := by simp [sprod]
+    refine ⟨(unravel [n0, n1] i).map fun (v : Nat) => 2 * (v : Int), ?_, ?_⟩
+    · simp only [Lat.i2c]
+      rw [if_pos (by exact_mod_cast hv), if_neg (by omega)]
+      simp
+    · have hfl : (Lat.ofc n0 n1 pbc).isFloat ((unravel [n0, n1] i).map fun (v : Nat) => 2 * (v : Int)) = false := by
+        simp [Lat.isFloat, unravel_two]
+      rw [hfl]
+      simp only [Lat.c2i, Bool.not_false, if_true, List.map_map]
+      have : ((fun x : Int => x / 2) ∘ fun (v : Nat) => 2 * (v : Int)) = Int.ofNat := by
+        funext v; simp
+      rw [this, ravelChecked_ok (validCoord_unravel [n0, n1] i (hs ▸ hv)), ravel_unravel [n0, n1] i (hs ▸ hv)]
+      rfl
+  · have hk : i - n0 * n1 < ((n0 - 1) * (n1 - 1) + 1) / 2 := by unfold ofcNsites at hi; omega
+    obtain ⟨h1, h2, h3, h4⟩ := faceCoord_spec (n1 - 1) (n0 - 1) _ hk
+    have hw : n1 - 1 ≠ 0 := by omega
+    have hk' : ((i : Int) - ((n0 : Int) * (n1 : Int))).toNat = i - n0 * n1 := by
+      have : (n0 : Int) * (n1 : Int) = ((n0 * n1 : Nat) : Int) := by simp
+      rw [this]; omega
+    refine ⟨[2 * ((faceCoord (n1 - 1) (i - n0 * n1)).1 : Int) + 1, 2 * ((faceCoord (n1 - 1) (i - n0 * n1)).2 : Int) + 1], ?_, ?_⟩
+    · simp only [Lat.i2c]
+      rw [if_neg (by omega), if_neg hw, hk']
+    · have hfl : (Lat.ofc n0 n1 pbc).isFloat [2 * ((faceCoord (n1 - 1) (i - n0 * n1)).1 : Int) + 1,
+          2 * ((faceCoord (n1 - 1) (i - n0 * n1)).2 : Int) + 1] = true := by
+        simp [Lat.isFloat]
+      rw [hfl]
+      simp only [Lat.c2i, Bool.not_true, Bool.false_eq_true, if_false, roundHalfEven_odd, Int.toNat_natCast]
+      generalize faceCoord (n1 - 1) (i - n0 * n1) = f at *
+      obtain ⟨x, y⟩ := f
+      simp only at h1 h2 h3 h4 ⊢
+      rw [if_neg (by simp; omega), if_neg (by simp; omega), h4]
+      simp only [Except.ok.injEq, Option.some.injEq]
+      push_cast
+      omega
+
+theorem hex_roundtrip (m n : Nat) (conv : Conv) (hm : 1 ≤ m) (hn : 1 ≤ n) (i : Nat)
+    (hi : i < (Lat.hex m n conv).nsites) (flt : Bool) :
+    ∃ c, (Lat.hex m n conv).i2c (i : Int) = .ok c ∧ (Lat.hex m n conv).c2i flt c = .ok (some (i : Int)) := by
+  have hi' : i < (⟨m, n, true, conv⟩ : Brick).nsites := by simpa [Lat.nsites, Brick.nsites] using hi
+  have h1 := Brick.i2c_ok ⟨m, n, true, conv⟩ hm hn i hi'
+  have h2 := Brick.c2i_i2c ⟨m, n, true, conv⟩ hm hn i hi'
+  refine ⟨hexCoord conv (Brick.row ⟨m, n, true, conv⟩ i) (Brick.col ⟨m, n, true, conv⟩ i), ?_, ?_⟩
+  · simp only [Lat.i2c, h1, bind, Except.bind, pure, Except.pure]
+  · cases conv <;> simp only [Lat.c2i, hexCoord, hexLongInv_hexLong, h2]
+
+theorem roundtrip (l : Lat) (h : l.WF) (i : Nat) (hi : i < l.nsites) :
+    ∃ c, l.i2c (i : Int) = .ok c ∧ l.c2i (l.isFloat c) c = .ok (some (i : Int)) := by
+  induction l generalizing i with
+  | integer shape pbc => exact grid_roundtrip hi
+  | triangular shape pbc => exact grid_roundtrip hi
+  | full shape => exact grid_roundtrip hi
+  | custom shape a => exact grid_roundtrip hi
+  | ofc n0 n1 pbc => exact ofc_roundtrip n0 n1 pbc i hi
+  | brick b =>
+    refine ⟨[(b.row i : Int), (b.col i : Int)], ?_, ?_⟩
+    · simp only [Lat.i2c, Brick.i2c_ok b h.1 h.2 i hi, bind, Except.bind, pure, Except.pure]
+    · simp only [Lat.c2i]; exact Brick.c2i_i2c b h.1 h.2 i hi
+  | hex m n conv => exact hex_roundtrip m n conv h.1 h.2 i hi _
+  | layered base nl ih =>
+    simp only [Lat.nsites] at hi
+    have hnb : 0 < base.nsites := by
+      rcases Nat.eq_zero_or_pos base.nsites with h0 | h0
+      · rw [h0] at hi; simp at hi
+      · exact h0
+    obtain ⟨c, hc1, hc2⟩ := ih h (i % base.nsites) (Nat.mod_lt _ hnb)
+    refine ⟨((i / base.nsites : Nat) : Int) :: c, ?_, ?_⟩
+    · simp only [Lat.i2c]
+      rw [if_neg (by push_cast at *; exact_mod_cast Nat.not_le.mpr hi)]
+      rw [← Int.natCast_emod, hc1]
+      simp [bind, Except.bind, pure, Except.pure]
+    · simp only [Lat.isFloat, List.drop_succ_cons, List.drop_zero, Lat.c2i]
+      have hl : i / base.nsites < nl := (Nat.div_lt_iff_lt_mul hnb).mpr hi
+      rw [if_neg (by exact_mod_cast Nat.not_le.mpr hl), hc2]
+      simp only [bind, Except.bind, pure, Except.pure, Except.ok.injEq, Option.some.injEq]
+      have := Nat.div_add_mod' i base.nsites
+      exact_mod_cast this
+
+/-- distinct sites have distinct coordinates -/
+theorem coord_injective (l : Lat) (h : l.WF) (i j : Nat) (hi : i < l.nsites) (hj : j < l.nsites)
+    (e : l.i2c (i : Int) = l.i2c (j : Int)) : i = j := by
+  obtain ⟨c, h1, h2⟩ := roundtrip l h i hi
+  obtain ⟨c', h1', h2'⟩ := roundtrip l h j hj
+  rw [e, h1'] at h1
+  have : c' = c := Except.ok.inj h1
+  subst this
+  rw [h2'] at h2
+  have := Option.some.inj (Except.ok.inj h2)
+  exact_mod_cast this.symm
+
 
 end Qib.Lattice
